@@ -142,6 +142,9 @@ def _run(ctx, replay):
             stats['compared'] += 1
             if a is not None and a == b: (ok_texts if not re.search(r' e:\d|:~|bad-op|unparsed|noerr', a) else err_texts).add(o)
             if insertion and (o.startswith(('CrystalsList', 'AddBuiltin')) or any(x in o for x in inserted)): continue
+            if a is not None and ' STDOUT+' in a:
+                findings.append(dict(kind='stdout', what='the call wrote to standard output (%s): a standard stream is process-global state' % a[a.index('STDOUT+'):][:24], ops=[o], env=env,
+                                     got=a, expected='nothing on standard output', label=label)); break
             if a != b:
                 findings.append(dict(kind='result', what='result after history differs from the result in a process without history', ops=ops[:i + 1], env=env,
                                      got=a, expected=b, label=label)); break
